@@ -28,6 +28,7 @@ type entry struct {
 	costly bool // a flow through client or service (hundreds of microseconds): fewer substitution values, no 2-byte sweep
 	small  int  // all byte strings up to this length are run (default 2; cheap entries 3 in the thorough tier)
 	budget int  // allocation allowance in bytes on top of 1 MiB + 4096 per input byte (flows)
+	header int  // when > 0: only the first header bytes of each seed are mutated, the rest is appended unchanged (large seeds)
 
 	base    uint64 // bytes allocated by a valid seed (measured once per worker process, after a warm-up run)
 	hasBase bool
@@ -160,6 +161,9 @@ func batches(thorough bool) []batch {
 		for si, s := range e.seeds {
 			for _, f := range families(e) {
 				f := f
+				if e.header > 0 && e.header < len(s) {
+					s = s[:e.header]
+				}
 				n := f.count(s, thorough && !e.costly)
 				for lo := 0; lo < n; lo += chunk {
 					hi := lo + chunk
@@ -328,7 +332,15 @@ func workerFor(flows bool) engine.WorkerFunc {
 					in = smallString(i)
 					what = func() interface{} { return "all-short-inputs" }
 				} else {
-					in = b.fam.make(b.e.seeds[b.seed], thorough && !b.e.costly, i)
+					sd := b.e.seeds[b.seed]
+					if b.e.header > 0 && b.e.header < len(sd) {
+						in = b.fam.make(sd[:b.e.header], thorough && !b.e.costly, i)
+						if in != nil {
+							in = append(in, sd[b.e.header:]...)
+						}
+					} else {
+						in = b.fam.make(sd, thorough && !b.e.costly, i)
+					}
 					if in == nil {
 						continue
 					}
